@@ -3,12 +3,12 @@ NEXT GenNext
 CONSTANTS
   Unit = 8
   TickMs = 125
-  Family = "fixed"
-  Bursts = {2}
-  Rates <- RatesFin
-  SetRates <- NoRates
-  Ns = {1, 2}
-  Dts <- GDtsQuick
+  Family = "back"
+  Bursts = {1, 3}
+  Rates <- RatesSet
+  SetRates <- RatesSet
+  Ns = {1, 3}
+  Dts <- GDtsBack
   MaxEvents = 5
   MaxRes = 2
   Kinds <- KAll
